@@ -8,6 +8,7 @@
 //                                        2 last_transmitted_not_empty, 3 last_received_had_more_data, 4 pending_outgoing_data,
 //                                        5 error_occured; instant is given as distance from the counter of the event that just ended
 //   warp <k>                             k times plan 499 0 -   (moves the 16 bit counter towards its wrap quickly)
+//   land <d>                             plans (499 0 - as often as needed, then one exact one) until the counter is 65535-d
 //   timeout                              plan_next_connection_event_after_timeout()
 //   resched <ok> <events> <offset>       reschedule_on_pending_data() with a toy radio whose disarm_connection_event() answers
 //                                        { ok, elapsed } with elapsed = time that certainly passed + events*interval + offset,
@@ -170,7 +171,7 @@ namespace {
     }
 
     // ---------------------------------------------------------------- case
-    enum op_kind { PLAN, WARP, TIMEOUT, RESCHED, RESET, CHANGE };
+    enum op_kind { PLAN, WARP, TIMEOUT, RESCHED, RESET, CHANGE, LAND };
 
     struct Op
     {
@@ -203,13 +204,13 @@ namespace {
 
     rc::Gen< int > gen_inst()
     {
-        return rc::gen::weightedOneOf< int >( { { 8, rc::gen::just( -1 ) }, { 4, verif::range< int >( 0, 12 ) }, { 2, verif::range< int >( 13, 600 ) },
+        return rc::gen::weightedOneOf< int >( { { 8, rc::gen::just( -1 ) }, { 2, rc::gen::element< int >( 1, 2 ) }, { 4, verif::range< int >( 0, 12 ) }, { 2, verif::range< int >( 13, 600 ) },
             { 1, verif::range< int >( 32700, 32800 ) }, { 1, verif::range< int >( 65000, 65535 ) }, { 1, verif::range< int >( 0, 65535 ) } } );
     }
 
     rc::Gen< Op > gen_op()
     {
-        return rc::gen::mapcat( rc::gen::weightedElement< int >( { { 12, PLAN }, { 1, WARP }, { 3, TIMEOUT }, { 8, RESCHED }, { 1, RESET }, { 2, CHANGE } } ), []( int k ) -> rc::Gen< Op > {
+        return rc::gen::mapcat( rc::gen::weightedElement< int >( { { 12, PLAN }, { 1, WARP }, { 3, TIMEOUT }, { 8, RESCHED }, { 1, RESET }, { 2, CHANGE }, { 1, LAND } } ), []( int k ) -> rc::Gen< Op > {
             switch ( k )
             {
             case PLAN:
@@ -223,6 +224,7 @@ namespace {
                     rc::gen::set( &Op::events, rc::gen::weightedOneOf< int >( { { 5, verif::range< int >( 0, 5 ) }, { 2, verif::range< int >( 0, 500 ) } } ) ),
                     rc::gen::set( &Op::offset, rc::gen::weightedOneOf< int >( { { 2, rc::gen::just( 0 ) }, { 1, rc::gen::just( 1 ) }, { 3, verif::range< int >( 0, 4000000 ) } } ) ) );
             case CHANGE: return rc::gen::build< Op >( rc::gen::set( &Op::kind, rc::gen::just( k ) ), rc::gen::set( &Op::arg, verif::range< int >( 0, 2 ) ) );
+            case LAND: return rc::gen::build< Op >( rc::gen::set( &Op::kind, rc::gen::just( k ) ), rc::gen::set( &Op::arg, rc::gen::weightedOneOf< int >( { { 3, verif::range< int >( 0, 3 ) }, { 1, verif::range< int >( 0, 40 ) } } ) ) );
             default: return rc::gen::build< Op >( rc::gen::set( &Op::kind, rc::gen::just( k ) ) );
             }
         } );
@@ -256,6 +258,7 @@ namespace {
                 os << "\n";
                 break;
             case WARP: os << "warp " << o.arg << "\n"; break;
+            case LAND: os << "land " << o.arg << "\n"; break;
             case TIMEOUT: os << "timeout\n"; break;
             case RESCHED: os << "resched " << o.ok << " " << o.events << " " << o.offset << "\n"; break;
             case RESET: os << "reset\n"; break;
@@ -291,6 +294,11 @@ namespace {
             {
                 o.kind = WARP;
                 o.arg  = static_cast< int >( verif::tok_int( l, 1 ) ) % 200;
+            }
+            else if ( l[ 0 ] == "land" )
+            {
+                o.kind = LAND;
+                o.arg  = static_cast< int >( verif::tok_int( l, 1 ) ) % 500;
             }
             else if ( l[ 0 ] == "timeout" )
                 o.kind = TIMEOUT;
@@ -411,6 +419,16 @@ namespace {
                 for ( int i = 0; i != o.arg; ++i )
                     do_plan( step, 499, 0, -1 );
                 break;
+            case LAND: {
+                // flags 0 does not force a listen only for configurations without listen_always: the walk is bounded
+                const unsigned target = ( 65535u - static_cast< unsigned >( o.arg ) ) & 0xffff;
+                for ( int guard = 0; guard != 140 && counter != target; ++guard )
+                {
+                    const unsigned dist = ( target - counter ) & 0xffff;
+                    do_plan( step, dist > 500 ? 499 : static_cast< int >( dist ) - 1, 0, -1 );
+                }
+            }
+            break;
             case TIMEOUT:
                 if ( tsl + I > 4000000000ull )
                     break;   // delta_time is 32 bit; no connection lives that long without an event (supervision timeout <= 32 s)
